@@ -324,6 +324,32 @@ class CFG:
             n = getattr(n, "_parent", None)
         return out
 
+    def must_state(self, gen_nodes: Set[int], kill_nodes: Set[int], gen_edges: Set[Edge] = frozenset(), entry_state: bool = False) -> Dict[int, bool]:
+        """Forward must-analysis of one boolean fact: IN[n] holds iff on every path entry -> n the last event was a
+        generating node / edge (greatest fixed point; exceptional edges are ignored)."""
+        nodes = self.reachable([self.entry], skip_exc=True)
+        IN = {n: True for n in nodes}
+        IN[self.entry] = entry_state
+
+        def out(p, n, label):
+            if p in kill_nodes:
+                return (p, n, label) in gen_edges
+            if p in gen_nodes or (p, n, label) in gen_edges:
+                return True
+            return IN[p]
+
+        changed = True
+        while changed:
+            changed = False
+            for n in nodes:
+                if n == self.entry:
+                    continue
+                v = all(out(p, n, label) for p, label in self.pred[n] if p in nodes and label != "exc")
+                if v != IN[n]:
+                    IN[n] = v
+                    changed = True
+        return IN
+
     def exits_normal(self) -> List[int]:
         """Nodes with an edge into the normal exit."""
         return [a for a, _ in self.pred[self.exit]]
